@@ -661,3 +661,24 @@ for _p in ('C01', 'C02', 'C03', 'C05', 'C12'):
     if 'tied by translation' not in PROPS[_p]['technique']:
         PROPS[_p]['technique'] = PROPS[_p]['technique'] + ('; encoder bodies are additionally tied by translation: regenerated from the Go source on every '
             'run and proved to append exactly the encoder model\'s bytes')
+
+# ---- the msgp-generated map decoders (MessageOptions, AckMessage, HeloOpts, Helo with its inlined options): key loop + switch regenerated,
+# proved equal to the models' readFields over their handler tables by induction on the number of keys (Tie/CodecMap.lean)
+_SKM_THEOREMS = [f'FV.Tie.{t}_{m}_is_model' for t in ('MessageOptions', 'AckMessage', 'HeloOpts', 'Helo') for m in ('UnmarshalMsg', 'DecodeMsg')] + [
+    'FV.Tie.loopN_eq_readFields']
+_SKM_TEXT = (" The msgp-generated map decoders (MessageOptions, AckMessage, HeloOpts, Helo with its inlined options decoder) are tied the same way: "
+             "the key loop `for n > 0 { n--; key; switch key { case …; default: Skip } }` is a statement of the skeleton language (Stmt.mapLoop), and "
+             "loopN_eq_readFields proves by induction on the number of keys that it is the model's readFields over the handler table, given that one pass "
+             "of the regenerated switch does what the table's handler for that key does (T_step, by cases on the key).")
+for _p in ('C01', 'C04', 'C05', 'C10', 'C13'):
+    PROPS[_p]['translator'] = True
+    PROPS[_p]['lean_modules'] = PROPS[_p]['lean_modules'] + ['FluentVerif.Tie.CodecMap']
+    PROPS[_p]['theorems'] = PROPS[_p]['theorems'] + _SKM_THEOREMS
+    PROPS[_p]['explanation'] = PROPS[_p]['explanation'] + _SKM_TEXT
+    if not any('translator/codec.go' in a for a in PROPS[_p]['assumptions']):
+        PROPS[_p]['assumptions'] = PROPS[_p]['assumptions'] + [
+            "translator/codec.go is trusted to render each recognised Go statement as the Sk statement of the same meaning (its rules are "
+            "listed in DESIGN 0.9); the msgp primitives the statements call are the modelled ones"]
+    if 'tied by translation' not in PROPS[_p]['technique']:
+        PROPS[_p]['technique'] = PROPS[_p]['technique'] + ('; the ack / option / handshake map decoders are additionally tied by translation: bodies regenerated '
+            'from the Go source on every run and proved equal to the decoder models (key loop by induction)')
